@@ -1,9 +1,13 @@
 #!/bin/sh
-# usage: run_all.sh <quick|thorough>   runs every claimed check in sequence; prints one summary line per check
-TIER=${1:-quick}
-for ID in $(python3 -c "import json; print(' '.join(c['property_id'] for c in json.load(open('/verif/MANIFEST.json'))['checks']))"); do
+# usage: tools/run_all.sh <quick|thorough> [IDs...]   runs the claimed checks in sequence; one summary line per check
+DIR=$(cd "$(dirname "$0")/.." && pwd)
+TIER=${1:-quick}; shift
+IDS="$@"
+[ -z "$IDS" ] && IDS=$(python3 -c "import json; print(' '.join(c['property_id'] for c in json.load(open('$DIR/MANIFEST.json'))['checks']))")
+mkdir -p $DIR/.scratch
+for ID in $IDS; do
   S=$(date +%s)
-  /verif/check.sh $ID $TIER >/verif/.scratch/all.$ID.$TIER.log 2>&1; RC=$?
+  $DIR/check.sh $ID $TIER >$DIR/.scratch/all.$ID.$TIER.log 2>&1; RC=$?
   E=$(date +%s)
-  echo "$ID $TIER exit=$RC wall=$((E-S))s $(grep "^\[$ID\] tier" /verif/.scratch/all.$ID.$TIER.log | cut -c1-200)"
+  echo "$ID $TIER exit=$RC wall=$((E-S))s $(grep "^\[$ID\] tier" $DIR/.scratch/all.$ID.$TIER.log | cut -c1-220)"
 done
